@@ -359,6 +359,10 @@ NATURAL_KINDS = ('unknown_origin', 'unknown_destination', 'origin_above_cruise',
 # ------------------------------------------------------------------- generator
 def draw_opts(rng):
     use_weather = rng.random() < 0.15
+    if not use_weather and rng.random() < 0.06:
+        # a tolerance far below a gram of fuel, with room to get there
+        return {'iterate_mass': True, 'use_weather': False, 'max_mass_iters': rng.choice([25, 40]),
+                'reltol': rng.choice([1e-9, 2e-10]), 'frac': 0.02, 'lhv': 43.8e6}
     return {
         # weather interpolation costs ~15 ms per point: keep weather builders cheap otherwise
         'iterate_mass': (not use_weather) and rng.random() < 0.4,
